@@ -51,12 +51,12 @@ def bytes_alphabet(compact, max_len):
     return out
 
 
-TS_VALUE = [0, 1, 999, 1000, 1001, 2**31 * 1000, 1700000000123, bridge.MAX_DT_MS]
+TS_VALUE = [0, 1, 999, 1000, 1001, 2**31 * 1000, 1700000000123, bridge.MAX_DT_MS] + list(bridge.FOLD_TWINS)
 TS_WIRE_EXTRA = [bridge.MAX_DT_MS + 1, 2**63 - 1, -2, -(2**63)]
 TD32 = [0, 1, -1, 2**31 - 1, -(2**31), 1001, -1001]
 TD64_VALUE = [0, 1, -1, 2**31 - 1, -(2**31), 2**31, 2**53 + 1, 2**53 - 1, -(2**53) - 1,
               bridge.TD_MIN_MS, bridge.TD_MAX_MS - 86400000]  # fmt: skip
-TD64_WIRE_EXTRA = [2**63 - 1, -(2**63), bridge.TD_MAX_MS + 1]
+TD64_WIRE_EXTRA = [2**63 - 1, -(2**63), bridge.TD_MAX_MS + 1, bridge.TD_MAX_MS, bridge.TD_MAX_MS - 86_400_000 + 1]
 FLOAT_VALUE = [0.0, 1.5, -1.5, 1.7976931348623157e308, -1.7976931348623157e308, 5e-324, -0.0]
 
 
